@@ -73,6 +73,11 @@ class FakeRawSocket:
         if s.recv_end == "err":
             s.recv_calls.append([n, -1])
             raise _socket.error("scripted failure")
+        if isinstance(s.recv_end, str) and s.recv_end.startswith("errno:"):
+            s.recv_calls.append([n, -1])
+            import errno as _errno
+            code = getattr(_errno, s.recv_end[6:])
+            raise OSError(code, "scripted " + s.recv_end[6:])
         if s.recv_end == "timeout":
             s.recv_calls.append([n, -1])
             raise _socket.timeout("scripted time-out")
@@ -94,6 +99,10 @@ class FakeRawSocket:
         if s.send_end == "err":
             s.send_calls.append([data, -1])
             raise _socket.error("scripted failure")
+        if isinstance(s.send_end, str) and s.send_end.startswith("errno:"):
+            s.send_calls.append([data, -1])
+            import errno as _errno
+            raise OSError(getattr(_errno, s.send_end[6:]), "scripted " + s.send_end[6:])
         s.send_calls.append([data, len(data)])
         s.sent += data
         return len(data)
